@@ -51,6 +51,13 @@ pub fn input_labels(c: &Collection) -> Vec<&'static str> {
     if c.samples.iter().any(|s| s.contigs.iter().any(|r| r.seq.contains("NNNN"))) {
         l.push("n-run>=4");
     }
+    // a run of >= 4 N at the same contig index in two samples (a scaffold gap inherited from the ancestor)
+    if c.samples.len() >= 2 {
+        let first = &c.samples[0];
+        if c.samples[1..].iter().any(|s| s.contigs.iter().zip(first.contigs.iter()).any(|(a, b)| a.seq.contains("NNNN") && b.seq.contains("NNNN"))) {
+            l.push("n-run-shared-by-samples");
+        }
+    }
     for a in &c.aims {
         l.push(match a.as_str() {
             "splitter-knock-out" => "aim:splitter-knock-out",
@@ -62,6 +69,8 @@ pub fn input_labels(c: &Collection) -> Vec<&'static str> {
             "novel-contig" => "aim:novel-contig",
             "contigs-reordered" => "aim:contigs-reordered",
             "many-samples" => "aim:many-samples",
+            "variant-next-to-n-run" => "aim:variant-next-to-n-run",
+            "orphan-swarm" => "aim:orphan-swarm",
             _ => "aim:other",
         });
     }
